@@ -199,7 +199,13 @@ func escSegment(i int) string {
 	case 1:
 		return "\\" + vrtStrN("e", 1, smASCII)
 	case 2:
-		return "\\u" + vrtStrN("h", 4, smASCII)
+		if vrtTier() == 1 {
+			return "\\u" + vrtStrN("h", 4, smASCII)
+		}
+		// quick: the first two hex digits from the interesting ranges (high / low
+		// surrogates, control, Latin-1), the last two symbolic
+		pre := []string{"d8", "dc", "00", "e9", "DB"}
+		return "\\u" + pre[vrtChoose("hexprefix", len(pre))] + vrtStrN("h", 2, smASCII)
 	default:
 		return "\\u" + vrtStr("t", 3, smASCII)
 	}
